@@ -1,6 +1,7 @@
 """C13 - enumeration members and constants keep correct names, types and values."""
 from givc.contracts import contract, inline
 from . import schema   # noqa
+from . import c04_symbols   # noqa  (_strip_symbol, split_csymbol)
 from .c02_defaults import denotes
 from giscanner import ast
 
@@ -97,3 +98,68 @@ contract(T + '_create_const',
                                  "and symbol.const_boolean is None and symbol.const_double is not None, "
                                  "result.value_type.target_fundamental == 'gdouble')",
          })
+
+
+# ------------------------------------------------------------------------------------------------
+# enumerations: one member per non-private enumerator, named by stripping the common prefix and lower-casing
+from givc.contracts import helper_loop   # noqa
+from giscanner import sourcescanner   # noqa
+contract('giscanner.sourcescanner.SourceType.child_list', params={'self': 'SourceType'}, returns='list[SourceSymbol]',
+         pure_keys=['self._stype'], trusted=True,
+         ensures={'wrappers': 'len(result) >= 0'},
+         note='generator property: one SourceSymbol wrapper per (non-NULL) child of the C type, in declaration order')
+contract(T + '_enum_common_prefix', params={'self': 'Transformer', 'symbol': 'SourceSymbol'}, returns='str?',
+         pure_keys=['self', 'symbol'], trusted=True,
+         note='longest common word prefix (split at underscores) of the enumerator identifiers; None when there are fewer '
+              'than two enumerators or no common word; not under contract (nested function, zip over split words)')
+contract(T + 'strip_identifier', params={'self': 'Transformer', 'ident': 'str'}, returns='str',
+         pure_keys=['self', 'ident'], trusted=True, raises={'TransformerException': 'maybe', 'ValueError': 'maybe'},
+         note='identifier-prefix stripping: see C04 (_split_c_string_for_namespace_matches is the verified core)')
+helper_loop('giscanner.ast.Enum.__init__', 1, {'invariant': ['True'], 'modifies': ['*.parent']})
+helper_loop('giscanner.ast.Bitfield.__init__', 1, {'invariant': ['True'], 'modifies': ['*.parent']})
+
+KIDS = 'symbol.base_type.child_list'
+ENUM_FOLDS = {
+    # number of public (non-private) enumerators among the first k
+    'NP': {'type': 'int', 'init': '0', 'step': '(ACC if %s[I1].private else ACC + 1)' % KIDS},
+}
+
+
+def member_name(self, symbol, child):
+    """the enumerator's identifier without the enumeration's common prefix (or, failing that, without the namespace
+    prefix), lower-cased"""
+    prefix = self._enum_common_prefix(symbol)
+    if prefix:
+        return child.ident[len(prefix):].lower()
+    return self._strip_symbol(child).lower()
+
+
+def member_ok(self, symbol, m, child):
+    return m.name == member_name(self, symbol, child) and m.value == child.const_int and m.symbol == child.ident
+
+
+contract(T + '_create_enum', params={'self': 'Transformer', 'symbol': 'SourceSymbol'}, returns='Enum|Bitfield', props=('C13',),
+         ghost={'K': 'int'}, fresh_result=False,
+         requires=['symbol.ident is not None', 'symbol.base_type is not None', 'not self._symbol_filter_cmd'],
+         modifies=['*.parent'],
+         raises={'TransformerException': 'True', 'ValueError': 'True', 'KeyError': 'True'},
+         loops={1: {'index': 'I1', 'folds': ENUM_FOLDS, 'modifies': ['members[]'],
+                    'assume': ['implies(I1 < len(%s), %s[I1].ident is not None and %s[I1].const_int is not None)' % (KIDS, KIDS, KIDS)],
+                    'var_types': {'members': 'list[Member]', 'child': 'SourceSymbol', 'name': 'str'},
+                    'invariant': [
+                        'is_fresh(members)',
+                        "len(members) == FOLD('NP', I1)",
+                        "implies(0 <= K and K < I1 and not %s[K].private, 0 <= FOLD('NP', K) and FOLD('NP', K) < len(members) "
+                        "and member_ok(self, symbol, members[FOLD('NP', K)], %s[K]))" % (KIDS, KIDS),
+                    ]}},
+         ensures={
+             'C13.enum.one_member_per_public_enumerator': "len(result.members) == FOLD('NP', len(%s))" % KIDS,
+             'C13.enum.member_name_value_identifier':
+                 "implies(0 <= K and K < len(%s) and not %s[K].private, 0 <= FOLD('NP', K) and FOLD('NP', K) < len(result.members) and "
+                 "member_ok(self, symbol, result.members[FOLD('NP', K)], %s[K]))" % (KIDS, KIDS, KIDS),
+             'C13.enum.c_type_is_the_c_name': 'result.ctype == symbol.ident',
+             'C13.enum.name_is_the_stripped_identifier': 'result.name == self.strip_identifier(symbol.ident)',
+             'C13.enum.flags_become_a_bitfield': 'isinstance(result, ast.Bitfield) == bool(symbol.base_type.is_bitfield)',
+         },
+         note='members keep the declaration order: the member of the K-th enumerator stands at position NP(K) = number of '
+              'public enumerators before it')
